@@ -52,7 +52,7 @@ namespace rkcommon {
 
       inline T center() const
       {
-        return .5f * (lower + upper);
+        return (lower + upper) / 2;
       }
 
       inline void extend(const T &t)
